@@ -28,6 +28,7 @@ import (
 	"sort"
 	"strconv"
 	"strings"
+	"sync"
 	"time"
 
 	"github.com/relex/gotils/logger"
@@ -37,6 +38,8 @@ import (
 
 
 type parent struct {
+	mu         sync.Mutex
+	refutedSet map[string]bool
 	c      *vkit.Ctx
 	pl     *plan
 	bases  []*Base
@@ -155,9 +158,15 @@ func main() {
 			hi, _ := strconv.Atoi(c.Arg("hi"))
 			for i := lo; i < hi && i < len(sel); i++ {
 				v := sel[i]
-				doc, mutated := BuildVariant(bases[v.Base], v)
 				id := fmt.Sprintf("%d|%s", i, v.id(bases))
-				env.write(env.runCase(id, doc, mutated, v.Real, probes[v.Base], c.LogCase))
+				if c.Arg("single") != "1" && v.Site >= 0 && readSkip(c.Arg("skipfile"))[v.class(bases)] {
+					env.write(CaseResult{ID: id, Verdict: "skipped"})
+					continue
+				}
+				doc, mutated := BuildVariant(bases[v.Base], v)
+				r := env.runCase(id, doc, mutated, v.Real, probes[v.Base], c.LogCase)
+				env.write(r)
+				env.exitIfPoisoned(r)
 			}
 		case "one":
 			// a single explicitly named variant (replay)
@@ -193,7 +202,9 @@ func main() {
 					env.write(CaseResult{ID: id, Verdict: "rejected", Phase: "encode", Err: err.Error()})
 					continue
 				}
-				env.write(env.runCase(id, doc, nil, i%4 == 0, BuildProbes(doc), c.LogCase))
+				r := env.runCase(id, doc, nil, i%4 == 0, BuildProbes(doc), c.LogCase)
+				env.write(r)
+				env.exitIfPoisoned(r)
 			}
 		}
 		env.results.Close()
@@ -242,7 +253,7 @@ func main() {
 	p.runBatches("batch", len(sel), batch, func(idx int, r CaseResult, cr *vkit.ChildResult) { p.judgeVariant(sel[idx], r, cr) })
 	p.runBatches("random", pl.nRandom, 60, func(idx int, r CaseResult, cr *vkit.ChildResult) { p.judgeRandom(idx, r, cr) })
 
-	if pl.complete {
+	if pl.complete && c.EventCount("skipped_variant_of_refuted_class") == 0 {
 		scope := fmt.Sprintf("the complete site x invalid-kind product over the 5 fixed base files (%d variants, %d classes)", pl.fixedTotal, pl.fixedClass)
 		if !c.Quick() {
 			scope += fmt.Sprintf(" and over %d random valid base files (%d variants)", len(bases)-pl.nFixed, pl.randTotal)
@@ -298,74 +309,116 @@ func caseIndex(id string) (int, bool) {
 	return n, err == nil
 }
 
-// runBatches runs cases [0,n) of a child mode in batches; a dead child names its killer through the case log, the
-// killer is re-run alone to confirm, and the rest of the batch is run again.
+// runBatches runs cases [0,n) of a child mode in batches on a pool of workers. A dead child names its killer through
+// the case log; the killer is re-run alone in a fresh process to confirm, and the rest of the batch is queued again.
+// Results are judged as they arrive (handle is called under p.mu). Once a (site-kind, invalid kind) class is
+// refuted by a process death, later children skip the remaining variants of that class (skipFile): every one of them
+// would cost a process and say nothing new.
 func (p *parent) runBatches(mode string, n int, batchSize int, handle func(idx int, r CaseResult, crash *vkit.ChildResult)) {
 	c := p.c
 	mk := func(lo, hi int, single bool) vkit.ChildSpec {
-		args := map[string]string{"lo": strconv.Itoa(lo), "hi": strconv.Itoa(hi)}
+		args := map[string]string{"lo": strconv.Itoa(lo), "hi": strconv.Itoa(hi), "skipfile": p.skipFile()}
 		if single {
 			args["single"] = "1"
 		}
 		return vkit.ChildSpec{Mode: mode, Tag: fmt.Sprintf("%s%d", mode, lo), Timeout: 30 * time.Minute, Args: args, Env: []string{"GOMAXPROCS=2"}}
 	}
-	var specs []vkit.ChildSpec
+	var qmu sync.Mutex
+	var queue []vkit.ChildSpec
+	pending := 0
 	for lo := 0; lo < n; lo += batchSize {
 		hi := lo + batchSize
 		if hi > n {
 			hi = n
 		}
-		specs = append(specs, mk(lo, hi, false))
+		queue = append(queue, mk(lo, hi, false))
 	}
-	for len(specs) > 0 {
-		var again []vkit.ChildSpec
-		for _, res := range c.RunChildren(specs, numParallel()) {
-			res := res
-			lo, _ := strconv.Atoi(res.Spec.Args["lo"])
-			hi, _ := strconv.Atoi(res.Spec.Args["hi"])
-			single := res.Spec.Args["single"] == "1"
-			done := map[int]bool{}
-			stuck := false
-			for _, r := range readResults(res.Dir) {
-				idx, ok := caseIndex(r.ID)
-				if !ok {
-					continue
-				}
-				done[idx] = true
-				if r.Verdict == "stuck" {
-					stuck = true
-					c.Inconclusive(fmt.Sprintf("case %s did not finish within %s (phase %s); goroutines parked in: %s", r.ID, caseWatchdog, r.Phase,
-						strings.Join(vkit.StuckInAgent(res.Stderr), ", ")))
-					c.Eval(1)
-					continue
-				}
+	pending = len(queue)
+	cond := sync.NewCond(&qmu)
+	take := func() (vkit.ChildSpec, bool) {
+		qmu.Lock()
+		defer qmu.Unlock()
+		for len(queue) == 0 && pending > 0 {
+			cond.Wait()
+		}
+		if len(queue) == 0 {
+			return vkit.ChildSpec{}, false
+		}
+		s := queue[0]
+		queue = queue[1:]
+		return s, true
+	}
+	finish := func(more *vkit.ChildSpec) {
+		qmu.Lock()
+		if more != nil {
+			queue = append(queue, *more)
+			pending++
+		}
+		pending--
+		qmu.Unlock()
+		cond.Broadcast()
+	}
+	// collect reads a child's result lines; returns which indices reported and whether one was reported stuck
+	collect := func(res *vkit.ChildResult) (done map[int]bool, stuck bool) {
+		done = map[int]bool{}
+		p.mu.Lock()
+		defer p.mu.Unlock()
+		for _, r := range readResults(res.Dir) {
+			idx, ok := caseIndex(r.ID)
+			if !ok {
+				continue
+			}
+			done[idx] = true
+			switch r.Verdict {
+			case "stuck":
+				stuck = true
+				c.Inconclusive(fmt.Sprintf("case %s did not finish within %s (phase %s); goroutines parked in: %s", r.ID, caseWatchdog, r.Phase,
+					strings.Join(vkit.StuckInAgent(res.Stderr), ", ")))
+				c.Eval(1)
+			case "skipped":
+				c.Event("skipped_variant_of_refuted_class", 1)
+			default:
 				handle(idx, r, nil)
 			}
-			next := hi
-			switch {
-			case res.TimedOut:
-				c.Inconclusive(fmt.Sprintf("child %s timed out at case %s", res.Spec.Tag, res.LastCase))
-				continue
-			case stuck:
-				idx, _ := caseIndex(res.LastCase)
-				next = idx + 1
-			case res.Crashed():
-				idx, ok := caseIndex(res.LastCase)
-				if !ok || done[idx] {
-					c.Inconclusive(fmt.Sprintf("child %s died outside a case (%s); last case %q", res.Spec.Tag, res.CrashSummary(), res.LastCase))
-					if ok {
-						next = idx + 1
-					} else {
-						continue
-					}
-					break
+		}
+		return done, stuck
+	}
+	var wg sync.WaitGroup
+	for w := 0; w < numParallel(); w++ {
+		wg.Add(1)
+		go func() {
+			defer wg.Done()
+			for {
+				spec, ok := take()
+				if !ok {
+					return
 				}
-				c.Event("child_deaths", 1)
-				if single {
-					handle(idx, CaseResult{ID: res.LastCase, Verdict: "died"}, &res)
-				} else {
+				res := c.RunChild(spec)
+				lo, _ := strconv.Atoi(spec.Args["lo"])
+				hi, _ := strconv.Atoi(spec.Args["hi"])
+				done, stuck := collect(&res)
+				next := hi
+				switch {
+				case res.TimedOut:
+					c.Inconclusive(fmt.Sprintf("child %s timed out at case %s", spec.Tag, res.LastCase))
+				case stuck, res.ExitCode == exitPoisoned:
+					// the child ended itself after reporting the case (watchdog / recovered panic with agent goroutines left behind)
+					if idx, ok := caseIndex(res.LastCase); ok {
+						next = idx + 1
+					}
+				case res.Crashed():
+					idx, ok := caseIndex(res.LastCase)
+					if !ok || done[idx] {
+						c.Inconclusive(fmt.Sprintf("child %s died outside a case (%s); last case %q", spec.Tag, res.CrashSummary(), res.LastCase))
+						if ok {
+							next = idx + 1
+						}
+						break
+					}
+					c.Event("child_deaths", 1)
 					confirm := c.RunChild(mk(idx, idx+1, true))
-					if confirm.Crashed() {
+					p.mu.Lock()
+					if confirm.Crashed() && confirm.ExitCode != exitPoisoned {
 						handle(idx, CaseResult{ID: res.LastCase, Verdict: "died"}, &confirm)
 					} else {
 						got := false
@@ -377,23 +430,65 @@ func (p *parent) runBatches(mode string, n int, batchSize int, handle func(idx i
 						}
 						c.Inconclusive(fmt.Sprintf("case %s killed its batch (%s) but not a fresh process (result recorded: %v)", res.LastCase, res.CrashSummary(), got))
 					}
-				}
-				next = idx + 1
-			default:
-				// finished: every case of the range must have reported
-				for i := lo; i < hi; i++ {
-					if !done[i] {
-						c.Inconclusive(fmt.Sprintf("case %d of mode %s left no result", i, mode))
+					p.mu.Unlock()
+					next = idx + 1
+				default:
+					for i := lo; i < hi; i++ {
+						if !done[i] {
+							c.Inconclusive(fmt.Sprintf("case %d of mode %s left no result", i, mode))
+						}
 					}
 				}
-				continue
+				if next < hi {
+					more := mk(next, hi, false)
+					finish(&more)
+				} else {
+					finish(nil)
+				}
 			}
-			if !single && next < hi {
-				again = append(again, mk(next, hi, false))
-			}
-		}
-		specs = again
+		}()
 	}
+	wg.Wait()
+}
+
+// skipFile is where the parent publishes the classes already refuted by a process death.
+func (p *parent) skipFile() string { return filepath.Join(p.c.WorkDir(), "refuted-classes.txt") }
+
+// refuted adds a class to the published list (called under p.mu).
+func (p *parent) refuted(class string) {
+	if p.refutedSet == nil {
+		p.refutedSet = map[string]bool{}
+	}
+	if p.refutedSet[class] {
+		return
+	}
+	p.refutedSet[class] = true
+	var l []string
+	for k := range p.refutedSet {
+		l = append(l, k)
+	}
+	sort.Strings(l)
+	tmp := p.skipFile() + ".tmp"
+	if os.WriteFile(tmp, []byte(strings.Join(l, "\n")+"\n"), 0o644) == nil {
+		_ = os.Rename(tmp, p.skipFile())
+	}
+}
+
+func readSkip(path string) map[string]bool {
+	m := map[string]bool{}
+	if path == "" {
+		return m
+	}
+	b, err := os.ReadFile(path)
+	if err != nil {
+		return m
+	}
+	for _, l := range strings.Split(string(b), "\n") {
+		if l != "" {
+			m[l] = true
+		}
+	}
+	return m
 }
 
 func (p *parent) coverage() {
@@ -600,11 +695,14 @@ func (p *parent) judgeVariant(v Variant, r CaseResult, cr *vkit.ChildResult) {
 		where := "accepted by ParseConfigFile, then panic while " + r.Phase
 		if r.Phase == "parse" {
 			where = "panic inside run.ParseConfigFile"
+		} else {
+			p.refuted(class) // the child ends itself after such a case
 		}
 		c.Violation(class, fmt.Sprintf("%s (%s), invalid kind %s %s: %s: %s", s.Path, b.Name, mu.Name, mu.Frag, where, cut(r.Panic, 300)), p.witness(v, r, cr))
 		p.sample("panic", map[string]any{"case": id, "site": s.Path, "invalid_kind": mu.Name, "substituted": mu.Frag, "outcome": where, "panic": cut(r.Panic, 200)})
 	case "died":
 		c.Nontrivial(id)
+		p.refuted(class)
 		what := "process died"
 		if cr != nil {
 			what = cr.CrashSummary()
